@@ -643,6 +643,9 @@ impl Exec {
                         return Ok(false);
                     }
                 };
+                if *rtype == T_OPT && (self.model.opt_index().is_some() || *section != 3 || name_text != ".") {
+                    bump(&mut self.stats, "probe:irregular_opt_insertion");
+                }
                 let r = self.do_insert(pp, *section, rr, "insert_rr", false);
                 if *rtype == T_OPT {
                     // state predicate for signatures: the inserted record is an OPT record
@@ -1528,6 +1531,27 @@ impl Exec {
                                         "a second delete through the same cursor returned Ok instead of reporting a void record",
                                     ));
                                 }
+                            }
+                            // A deletion through a live cursor has no legitimate reason to
+                            // fail on a packet that stays small when decompressed (C11: "each
+                            // deletion removes exactly the record under the cursor").
+                            if let (Res::Err(e), false, Some(_)) = (&res, tomb, idx) {
+                                let lit = crate::codec::encode_literal(&self.model).len();
+                                // (in states the parser refuses for policy-only reasons the
+                                // library's re-parse inside delete() refuses too: not judged)
+                                if lit <= MAX_UNCOMPRESSED && self.dec.policy.is_empty() {
+                                    return Err(self.viol(
+                                        &["C11"],
+                                        "live-delete-refused",
+                                        &opname,
+                                        format!("{}{}", first_words(e), tags),
+                                        format!(
+                                            "{} on a live record of a {}-byte message returned an error instead of removing it: {}",
+                                            opname, lit, e
+                                        ),
+                                    ));
+                                }
+                                bump(&mut self.stats, "live_delete_refused_not_judged(large_or_policy_state)");
                             }
                             let ok = matches!(res, Res::Ok);
                             let info = OpInfo {
